@@ -259,7 +259,10 @@ fn encloses(i: Interval, v: f32) -> bool {
     }
     let lo = i.lower();
     let hi = i.upper();
-    v >= lo - ulp_slack(lo) && v <= hi + ulp_slack(hi)
+    // slack only on finite bounds (inf - inf would be NaN)
+    let sl = if lo.is_finite() { ulp_slack(lo) } else { 0.0 };
+    let sh = if hi.is_finite() { ulp_slack(hi) } else { 0.0 };
+    v >= lo - sl && v <= hi + sh
 }
 
 fn interval_grid(vals: &[f32]) -> Vec<Interval> {
